@@ -121,8 +121,14 @@ class Harness:
 
     def _op_create(self, step):
         arr = make_array(step["shape"], step["dtype"], step["seed"])
+        origin, sampling = step["origin"], step["sampling"]
+        if step.get("shared_calibration_array"):
+            # the caller passes ONE float64 ndarray object for both fields (and keeps it): the dataset must not
+            # alias it between its fields
+            origin = sampling = np.array(step["sampling"] if isinstance(step["sampling"], list) else [step["sampling"]] * arr.ndim, dtype=np.float64)
+            step = dict(step, origin=[float(v) for v in origin], sampling=[float(v) for v in origin])
         with self.sut("%s.from_array" % step["cls"]):
-            ds = getattr(self._qd(), step["cls"]).from_array(arr.copy(), origin=step["origin"], sampling=step["sampling"], units=step["units"])
+            ds = getattr(self._qd(), step["cls"]).from_array(arr.copy(), origin=origin, sampling=sampling, units=step["units"])
         nd = arr.ndim
         o = step["origin"] if isinstance(step["origin"], list) else [step["origin"]] * nd
         s = step["sampling"] if isinstance(step["sampling"], list) else [step["sampling"]] * nd
@@ -143,6 +149,16 @@ class Harness:
         e = self._src(step)
         attr, val = step["attr"], step["value"]
         nd = e.ds.ndim
+        if attr in ("origin", "sampling") and isinstance(val, dict) and "from" in val:
+            other = self.entries[val["from"] % len(self.entries)]
+            if other.ds.ndim != nd:
+                self.ctx.count("set_from_other_skipped_ndim_mismatch")
+                return
+            with self.sut("%s = <the %s array object of another dataset>" % (attr, val["field"])):
+                setattr(e.ds, attr, getattr(other.ds, val["field"]))
+            setattr(e, attr, list(getattr(other, val["field"])))
+            self.flags["kinds"].add("set_from_other_dataset")
+            return
         if attr in ("origin", "sampling"):
             v = np.array(val["a"]) if isinstance(val, dict) else val
             n = nd if np.isscalar(v) else len(v)
@@ -375,7 +391,9 @@ def draw_create(draw):
     cap = {1: 9, 2: 6, 3: 5, 4: 4, 5: 3}[nd]
     shape = [draw(st.integers(1, cap)) for _ in range(nd)]
     scal = draw(st.booleans())
+    shared = draw(st.integers(0, 4)) == 0
     return {
+        **({"shared_calibration_array": True} if shared else {}),
         "op": "create",
         "cls": draw(st.sampled_from(CLS_FOR_NDIM[nd])),
         "shape": shape,
@@ -496,6 +514,10 @@ class DatasetMachine(RuleBasedStateMachine):
         attr = data.draw(st.sampled_from(["origin", "sampling", "units", "name", "signal_units"]))
         wrong = data.draw(st.integers(0, 4)) == 0
         n = nd + data.draw(st.sampled_from([-1, 1])) if wrong and nd > 1 else (nd + 1 if wrong else nd)
+        if attr in ("origin", "sampling") and data.draw(st.integers(0, 3)) == 0:
+            step = {"op": "set", "src": i, "attr": attr, "value": {"from": self._pick(data), "field": data.draw(st.sampled_from(["origin", "sampling"]))}}
+            self.h.apply(step)
+            return
         if attr in ("origin", "sampling"):
             form = data.draw(st.sampled_from(["scalar", "list", "array"]))
             vals = [data.draw(st.sampled_from([0.25, 1.0, 2.0, -1.5, 4.0])) for _ in range(n)]
@@ -608,6 +630,8 @@ def alphabet():
     A["copy"] = lambda shape: {"op": "copy"}
     A["set_origin"] = lambda shape: {"op": "set", "attr": "origin", "value": 2.5}
     A["set_sampling"] = lambda shape: {"op": "set", "attr": "sampling", "value": [0.5 + k for k in range(len(shape))]}
+    A["set_origin_from_own_sampling"] = lambda shape: {"op": "set", "attr": "origin", "value": {"from": "self", "field": "sampling"}}
+    A["set_sampling_from_root_origin"] = lambda shape: {"op": "set", "attr": "sampling", "value": {"from": 0, "field": "origin"}}
     ip("pad1", lambda s, p: {"op": "pad", "in_place": p, "mode": "edge", "pad_width": 1})
     ip("pad_out", lambda s, p: {"op": "pad", "in_place": p, "mode": "constant", "output_shape": [n + 1 + (k % 2) for k, n in enumerate(s)]})
     ip("crop0", lambda s, p: {"op": "crop", "in_place": p, "crop_widths": [[1, 0]], "axes": 0} if s[0] >= 2 else None)
@@ -626,6 +650,7 @@ def alphabet():
 
 
 STARTS = [
+    {"op": "create", "shared_calibration_array": True, "cls": "Dataset3d", "shape": [4, 2, 5], "dtype": "float64", "seed": 6, "origin": [1.5, 1.5, 1.5], "sampling": [1.5, 2.0, 0.5], "units": ["a", "b", "c"]},
     {"op": "create", "cls": "Dataset3d", "shape": [4, 3, 5], "dtype": "int8", "seed": 1, "origin": [0.0, 1.5, -3.0], "sampling": [1.0, 0.5, 2.0], "units": ["a", "b", "c"]},
     {"op": "create", "cls": "Dataset2d", "shape": [5, 4], "dtype": "float64", "seed": 2, "origin": [10.25, 0.0], "sampling": [0.125, 3.0], "units": ["x", "y"]},
     {"op": "create", "cls": "Dataset4dstem", "shape": [2, 3, 4, 2], "dtype": "uint16", "seed": 3, "origin": 0.0, "sampling": 1.0, "units": "px"},
@@ -644,10 +669,21 @@ def check(ctx, case):
 
 def search(ctx):
     alpha = alphabet()
+    base_names = sorted(alpha)
+    # "^" variants: a copying operation whose RESULT is kept but the walk STAYS on the source dataset, so that
+    # sequences like  resample(copy) on A -> in-place op on A -> resample(copy) on A  are enumerated too
+    copying = [n for n in base_names if not n.endswith("!") and not n.startswith("set_")]
+    for n in copying:
+        alpha[n + "^"] = alpha[n]
     names = sorted(alpha)
+    inplace = [n for n in base_names if n.endswith("!")]
     depth = 3 if ctx.thorough else 2
-    starts = STARTS if ctx.thorough else STARTS[:3]
+    starts = STARTS if ctx.thorough else STARTS[:4]
     seqs = list(itertools.product(names, repeat=depth))
+    if not ctx.thorough:
+        # quick tier: all pairs + the depth-3 family (copy-and-stay, in-place, copying) that stale per-object
+        # caches need
+        seqs += [(a + "^", b, c) for a in copying for b in inplace for c in copying]
     done = 0
     for si, start in enumerate(starts):
         for qi, seq in enumerate(seqs):
@@ -668,8 +704,12 @@ def search(ctx):
                         ok = False
                         break
                     step = dict(step, src=cur)
+                    if step["op"] == "set" and isinstance(step.get("value"), dict) and step["value"].get("from") == "self":
+                        step = dict(step, value=dict(step["value"], **{"from": cur}))
                     h.apply(step)
-                    if step["op"] in ("copy", "index") or (step["op"] in ("pad", "crop", "bin", "resample") and not step["in_place"]):
+                    if nm.endswith("^"):
+                        pass  # stay on the source
+                    elif step["op"] in ("copy", "index") or (step["op"] in ("pad", "crop", "bin", "resample") and not step["in_place"]):
                         cur = len(h.entries) - 1
                 if ok:
                     h.finish()
@@ -679,7 +719,8 @@ def search(ctx):
             finally:
                 del case_ref_holder, h0
     ctx.extra["exhaustive"] = True
-    ctx.extra["exhaustive_subspace"] = "all %d^%d sequences over the %d-operation alphabet from %d start datasets (depth %d)" % (len(names), depth, len(names), len(starts), depth)
+    ctx.extra["exhaustive_subspace"] = "all %d^%d sequences over the %d-operation alphabet (%d base operations + %d 'apply and stay on the source' variants) from %d start datasets (depth %d)%s" % (
+        len(names), depth, len(names), len(base_names), len(copying), len(starts), depth, "" if ctx.thorough else " + the depth-3 family (copy-and-stay, in-place, copying)")
     ctx.extra["enumerated_sequences_applicable"] = done
 
     DatasetMachine.ctx = ctx
